@@ -25,7 +25,13 @@ while i < len(lines):
         while cmd.rstrip().endswith('\\') and i+1 < len(lines):
             i+=1; cmd=cmd.rstrip()[:-1]+' '+lines[i].strip()
         cmd=re.sub(r'-o\s+\S+', '-o '+sys.argv[2], cmd)
-        cmd=re.sub(r'&&.*$','',cmd)
+        parts=cmd.split('&&')
+        keep=[]
+        for part in parts:
+            keep.append(part)
+            if re.search(r'\b(gcc|cc|clang)\b', part):
+                break
+        cmd=' && '.join(x.strip() for x in keep)
         out.append(cmd); break
     i+=1
 print('\n'.join(out))
